@@ -802,10 +802,16 @@ def ws_agree(check: Check, repo: Repo, modules: list[str]) -> None:
         fn = repo.func("language.block_string", fn_name)
         sets = set()
         for c in walk_body(fn):
-            if isinstance(c, ast.Compare) and len(c.ops) == 1 and isinstance(c.ops[0], (ast.In, ast.NotIn)):
+            if isinstance(c, ast.Compare) and len(c.ops) == 1 and isinstance(c.ops[0], (ast.In, ast.NotIn, ast.Eq, ast.NotEq)):
                 r = c.comparators[0]
-                if isinstance(r, ast.Constant) and isinstance(r.value, str) and (set(r.value) & set(" \t")):
+                if isinstance(r, ast.Constant) and isinstance(r.value, str) and r.value and set(r.value) <= set(" \t"):
                     sets.add(r.value)
+            elif isinstance(c, ast.Call) and isinstance(c.func, ast.Attribute) and c.func.attr in ("startswith", "endswith") and len(c.args) == 1:
+                r = c.args[0]
+                consts = [r] if isinstance(r, ast.Constant) else list(getattr(r, "elts", []))
+                vals = [x.value for x in consts if isinstance(x, ast.Constant) and isinstance(x.value, str)]
+                if vals and all(v and set(v) <= set(" \t") for v in vals):
+                    sets.add("".join(sorted(set("".join(vals)))))
         ok = bool(sets) and all(set(s) == {" ", "\t"} for s in sets)
         check.ob(rule, fn, f"blank set used by {fn_name}", ok, f"sets: {sorted(sets)!r}" if sets else "no explicit ' \\t' membership test: blanks are decided some other way")
 
